@@ -122,6 +122,13 @@ theorem C09_sliced_orthonormal (rows k r : Nat) (hle : r ≤ k) (U : Nat → Nat
     ∀ i j, i < r → j < r → gramCols rows U i j = if i = j then 1 else 0 :=
   fun i j hi hj => hU i j (by omega) (by omega)
 
+example : ∀ i j, i < 1 → j < 1 →
+    gramCols (K := K) 2 (fun r i => if r = i then 1 else 0) i j = if i = j then 1 else 0 :=
+  C09_sliced_orthonormal 2 2 1 (by omega) _ (by
+    intro i j hi hj
+    rcases (by omega : i = 0 ∨ i = 1) with rfl | rfl <;>
+      rcases (by omega : j = 0 ∨ j = 1) with rfl | rfl <;> simp [gramCols, sumTo])
+
 /-- **C09 (composition).**  Over any commutative ring: if the bipartition matrix of `v` is
 `Σ_{i<k} U[·,i]·s_i·V[i,·]` (SVD specification, hypothesis) and the coefficients dropped by the rank
 rule vanish (`rank ≥` number of non-zero coefficients), then `schmidt_composition` of the sliced
